@@ -562,6 +562,14 @@ fn run_rejection(ctx: &RunCtx) -> RunOut {
         ("negative", json!(-1)),
         ("fraction", json!(1.5)),
         ("too large", json!(18446744073709551616.0)),
+        // spellings that a derived enum / newtype deserialiser might take for a value
+        ("single-key object ok:null", json!({"ok": null})),
+        ("single-key object noupdate:null", json!({"noupdate": null})),
+        ("single-key object restricted:null", json!({"restricted": null})),
+        ("single-key object Error:str", json!({"Error": "x"})),
+        ("one-element array of a number", json!([0])),
+        ("empty object", json!({})),
+        ("empty array", json!([])),
     ];
     let m = choose("mutation", wrong.len() + 1);
     let mut doc = maximal_doc();
@@ -581,7 +589,14 @@ fn run_rejection(ctx: &RunCtx) -> RunOut {
         expect_err = *required;
         what = format!("{pathstr} removed");
     } else {
-        let (name, val) = &wrong[m - 1];
+        let (full_name, val) = &wrong[m - 1];
+        // the object / array spellings share the rules of "object" / "array"
+        let name: &&str = &if full_name.contains("object") { "object" } else if *full_name == "empty array" { "empty-array" } else if full_name.contains("array") { "array" } else { *full_name };
+        if *name == "empty-array" && *kind == K::Arr {
+            // an empty array is a well-typed value for an array field
+            out.nontrivial = false;
+            return out;
+        }
         let same_kind = match (kind, *name) {
             (K::Str, "string") | (K::Status, "string") => true,
             (K::Num, "number") => true,
@@ -602,7 +617,7 @@ fn run_rejection(ctx: &RunCtx) -> RunOut {
             ("null", false) => false, // null for an optional field means absent
             _ => true,
         };
-        what = format!("{pathstr} := {name}");
+        what = format!("{pathstr} := {full_name}");
         if *kind == K::Obj && *name == "object" {
             // {"a":1} lacks the required members of response/ping/updatecheck/urls/manifest/...;
             // daystart has none
@@ -627,6 +642,55 @@ fn run_rejection(ctx: &RunCtx) -> RunOut {
                 out
             }
         }
+    }
+}
+
+// ---------------------------------------------------------------------------------------------
+// (b2) a protocol object spelled as the array of its members' values is wrongly typed.
+
+fn positional() -> Vec<(Vec<&'static str>, Vec<&'static str>)> {
+    let app = ["response", "app", "0"];
+    let p = |tail: &[&'static str]| -> Vec<&'static str> { app.iter().cloned().chain(tail.iter().cloned()).collect() };
+    vec![
+        (vec!["response"], vec!["protocol", "server", "daystart", "app"]),
+        (vec!["response", "daystart"], vec!["elapsed_days", "elapsed_seconds"]),
+        (p(&[]), vec!["appid", "status", "ping", "updatecheck"]),
+        (p(&["ping"]), vec!["status"]),
+        (p(&["updatecheck"]), vec!["status", "info", "urls", "manifest"]),
+        (p(&["updatecheck", "urls"]), vec!["url"]),
+        (p(&["updatecheck", "urls", "url", "0"]), vec!["codebase"]),
+        (p(&["updatecheck", "manifest"]), vec!["version", "actions", "packages"]),
+        (p(&["updatecheck", "manifest", "actions"]), vec!["action"]),
+        (p(&["updatecheck", "manifest", "actions", "action", "0"]), vec!["event", "run"]),
+        (p(&["updatecheck", "manifest", "packages"]), vec!["package"]),
+        (p(&["updatecheck", "manifest", "packages", "package", "0"]), vec!["name", "required", "size", "hash", "hash_sha256", "fp"]),
+    ]
+}
+
+fn run_positional(ctx: &RunCtx) -> RunOut {
+    let table = positional();
+    let i = choose("object", table.len());
+    let (path, members) = &table[i];
+    let mut doc = maximal_doc();
+    let pathstr = path.join("/");
+    let mut out = RunOut::new("positional", true, i as u64);
+    let obj = match at_mut(&mut doc, path) {
+        Some(Value::Object(o)) => o.clone(),
+        _ => crate::chooser::machinery(format!("maximal document has no object at {pathstr}")),
+    };
+    let arr: Vec<Value> = members.iter().map(|m| obj.get(*m).cloned().unwrap_or(Value::Null)).collect();
+    *at_mut(&mut doc, path).unwrap() = Value::Array(arr);
+    let bytes = serde_json::to_vec(&doc).unwrap();
+    if ctx.want_trace {
+        out.trace = Some(json!({"object": pathstr, "doc": String::from_utf8_lossy(&bytes)}));
+    }
+    match catch_unwind(|| parse_json_response(&bytes)) {
+        Err(_) => out.fail(format!("parser panics: {pathstr} given as an array"), ""),
+        Ok(Ok(_)) => out.fail(
+            format!("document accepted although the object {pathstr} is given as the array of its members' values"),
+            String::from_utf8_lossy(&bytes).to_string(),
+        ),
+        Ok(Err(_)) => out,
     }
 }
 
@@ -916,8 +980,14 @@ fn parts(tier: Tier) -> Vec<PartDef> {
         PartDef::new(
             "rejection",
             Cfg::new("C16/rejection"),
-            json!({"typed_fields": schema().len(), "mutations_per_field": 10, "exploration": "every field x {remove, 9 wrong-type values}"}),
+            json!({"typed_fields": schema().len(), "mutations_per_field": 18, "exploration": "every field x {remove, 17 wrong-type values incl. single-key objects and one-element arrays}"}),
             run_rejection,
+        ),
+        PartDef::new(
+            "objects-as-arrays",
+            Cfg::new("C16/objects-as-arrays"),
+            json!({"objects": positional().iter().map(|(p, _)| p.join("/")).collect::<Vec<_>>(), "mutation": "the object replaced by the array of its members' values in declaration order (the positional form a derived struct deserialiser accepts)", "exploration": "every protocol object of the maximal document"}),
+            run_positional,
         ),
         PartDef::new(
             "prefixes-bitflips",
